@@ -794,3 +794,74 @@ func stripW(v ssa.Value) ssa.Value {
 		v = c.X
 	}
 }
+
+// canonCall names a call by the function that does the work: a thin in-package wrapper - one that calls exactly one other
+// in-package function with (a prefix-preserving selection of) its own parameters and whose success returns hand back that
+// call's results, converted at most - is named after the wrapped function, with the result indices mapped.
+func canonCall(c *ssa.Call) (string, map[int]int) {
+	f := c.Common().StaticCallee()
+	if f == nil {
+		return "", nil
+	}
+	ident := map[int]int{}
+	for i := 0; i < f.Signature.Results().Len(); i++ {
+		ident[i] = i
+	}
+	if f.Blocks == nil || f.Pkg == nil || c.Common().IsInvoke() {
+		return f.Name(), ident
+	}
+	var inner *ssa.Call
+	n := 0
+	instrs(f, func(in ssa.Instruction) {
+		if cc, ok := in.(*ssa.Call); ok {
+			if g := cc.Common().StaticCallee(); g != nil && g.Pkg == f.Pkg && g.Blocks != nil && !cc.Common().IsInvoke() {
+				n++
+				inner = cc
+			}
+		}
+	})
+	if n != 1 {
+		return f.Name(), ident
+	}
+	for i, a := range inner.Common().Args {
+		if i >= len(f.Params) || a != ssa.Value(f.Params[i]) {
+			return f.Name(), ident
+		}
+	}
+	m := map[int]int{}
+	okAny := false
+	for _, ret := range returnsOf(f) {
+		// success returns: the last result is a nil error or the constant true
+		last := ret.Results[len(ret.Results)-1]
+		succ := isNilConst(last)
+		if b, isB := constBool(last); isB && b {
+			succ = true
+		}
+		if !succ {
+			continue
+		}
+		for i, r := range ret.Results[:len(ret.Results)-1] {
+			_, org := convsBack(r)
+			ex, ok := org.(*ssa.Extract)
+			if !ok || ex.Tuple != ssa.Value(inner) {
+				return f.Name(), ident
+			}
+			if j, seen := m[i]; seen && j != ex.Index {
+				return f.Name(), ident
+			}
+			m[i] = ex.Index
+			okAny = true
+		}
+	}
+	if !okAny {
+		return f.Name(), ident
+	}
+	name, innerMap := canonCall(inner)
+	out := map[int]int{}
+	for i, j := range m {
+		if k, ok := innerMap[j]; ok {
+			out[i] = k
+		}
+	}
+	return name, out
+}
